@@ -13,8 +13,10 @@ import (
 // flavourOf: which build of the harness a property needs.
 func flavourOf(id string) string {
 	switch id {
-	case "C09", "C10":
+	case "C09":
 		return "shim"
+	case "C10":
+		return "shimrace"
 	case "C20":
 		return "cmd"
 	}
@@ -83,7 +85,7 @@ func buildHarness1(scratch, flavour string, hooks bool) (string, map[string]inte
 	t0 := time.Now()
 	args := []string{"build", "-overlay", ovPath, "-o", bin}
 	tags := []string{}
-	if flavour == "shim" {
+	if strings.HasPrefix(flavour, "shim") {
 		tags = append(tags, "shim")
 	}
 	if !hooks {
@@ -102,6 +104,19 @@ func buildHarness1(scratch, flavour string, hooks bool) (string, map[string]inte
 	info["repo_dirty_files"] = len(strings.Fields(gitOut("status", "--porcelain", "--untracked-files=no")))
 	if err != nil {
 		return "", info, fmt.Errorf("%v\n%s", err, out)
+	}
+	if flavour == "shimrace" {
+		// second half of C10: the same harness, free-running, under the race detector
+		t1 := time.Now()
+		rargs := []string{"build", "-race", "-overlay", ovPath, "-o", filepath.Join(scratch, "hrace"), "-tags", strings.Join(tags, ","), "."}
+		rc := exec.Command("go", rargs...)
+		rc.Dir = hdir
+		rc.Env = append(env(), "CGO_ENABLED=1")
+		if out, err := rc.CombinedOutput(); err != nil {
+			info["race_build_error"] = trunc(string(out), 800)
+		} else {
+			info["race_build_s"] = time.Since(t1).Seconds()
+		}
 	}
 	if flavour == "cmd" {
 		// the two command binaries, from the working tree
